@@ -269,8 +269,14 @@ class TypedNode(Node):
                 if n._data_id in existing_ids:
                     raise UniqueConstraintError("Node.data already exists in parent")
             if isinstance(before, int) and before is not False:
-                # Repeatedly inserting at the same index reverts the order
-                topnodes = topnodes[::-1]
+                # Insert at increasing positions, so the order is kept (the
+                # index is normalized once, the same way `list.insert()` does)
+                count = len(self.children)
+                idx = 0 if before is True else before
+                idx = max(0, count + idx) if idx < 0 else min(idx, count)
+                for i, n in enumerate(topnodes):
+                    self.add_child(n, kind=n.kind, before=idx + i, deep=deep)
+                return
             for n in topnodes:
                 self.add_child(n, kind=n.kind, before=before, deep=deep)
             return
